@@ -929,6 +929,274 @@ fn corpus() -> Vec<(&'static str, Case, Vec<Ev>)> {
     v
 }
 
+
+// ------------------------------------------------------------------ the REAL driver loops and the real shutdown path
+extern "C" {
+    fn kill(pid: i32, sig: i32) -> i32;
+    fn prctl(option: i32, arg2: u64, arg3: u64, arg4: u64, arg5: u64) -> i32;
+    fn waitpid(pid: i32, status: *mut i32, options: i32) -> i32;
+}
+const SIGTERM: i32 = 15;
+const SIGKILL: i32 = 9;
+fn reap_orphans(ms: u64) {
+    // this process is a child subreaper: a ripd spawned by a `rip` client command ends up here when it dies
+    let end = Instant::now() + Duration::from_millis(ms);
+    loop {
+        let mut st = 0i32;
+        let r = unsafe { waitpid(-1, &mut st, 1 /* WNOHANG */) };
+        if r <= 0 && Instant::now() > end {
+            break;
+        }
+        if r <= 0 {
+            std::thread::sleep(Duration::from_millis(20));
+        }
+    }
+}
+fn rip_bin() -> PathBuf {
+    let exe = std::env::current_exe().unwrap();
+    exe.parent().unwrap().parent().unwrap().parent().unwrap().join("target-cli/debug/rip")
+}
+fn fresh_store(lock: &LockF, meta: &MetaF) -> (Scratch, PathBuf, PathBuf) {
+    let sc = Scratch::new("c18r");
+    let data = sc.path().join("data");
+    let ws = sc.path().join("ws");
+    std::fs::create_dir_all(ripd::authority_dir(&data)).unwrap();
+    std::fs::create_dir_all(&ws).unwrap();
+    write_lock_file(&data, lock, &ws);
+    write_meta_file(&data, meta, &ws);
+    (sc, data, ws)
+}
+fn meta_pid_endpoint(data: &Path) -> Option<(u64, String)> {
+    let s = std::fs::read_to_string(ripd::authority_meta_path(data)).ok()?;
+    let v: serde_json::Value = serde_json::from_str(&s).ok()?;
+    Some((v.get("pid")?.as_u64()?, v.get("endpoint")?.as_str()?.to_string()))
+}
+
+/// T2 for the server-side driver: the real `acquire_authority_lock_with_recovery` (ripd::verif wrapper) alone, from
+/// every all-dead leftover state; it must return the guard (its own retry budget; for the recoverable states the 2 s
+/// deadline is never consulted, so machine load cannot fail it) and lock.json must carry the caller's record.
+fn real_server_loop(res: &mut RunResult) {
+    let rt = tokio::runtime::Builder::new_current_thread().enable_all().build().expect("tokio runtime");
+    hk::set_thread_pid(Some(101));
+    hk::set_liveness(101, Some(PidLiveness::Alive));
+    hk::set_liveness(DEAD as u32, Some(PidLiveness::Dead));
+    hk::set_liveness(DEAD2 as u32, Some(PidLiveness::Dead));
+    for lock in [LockF::Absent, LockF::Half(DEAD), LockF::Rec(DEAD)] {
+        for meta in [MetaF::Absent, MetaF::Rec(DEAD2)] {
+            let (_sc, data, ws) = fresh_store(&lock, &meta);
+            let t0 = Instant::now();
+            let r = rt.block_on(async { tokio::time::timeout(Duration::from_secs(180), ripd::verif::acquire_authority_lock_with_recovery(&data, &ws)).await });
+            res.evaluations += 1;
+            res.oracle_checks += 1;
+            res.bump("kind=real_server_loop");
+            let after = data_lock(&data);
+            let err = match r {
+                Ok(Ok(guard)) => {
+                    let ok = after == 2 + 101;
+                    drop(guard);
+                    if ok { None } else { Some(format!("returned a guard but lock.json has code {after}")) }
+                }
+                Ok(Err(e)) => Some(format!("returned Err: {e}")),
+                Err(_) => Some("did not return within 180 s".to_string()),
+            };
+            if let Some(e) = err {
+                let class = if after == 1 { "real_server_loop_never_cleans_half_written_lock" } else { "real_server_loop_does_not_recover_dead_leftover" };
+                res.bump(&format!("finding={class}"));
+                res.oracle_violations.push(OracleViolation {
+                    case_id: -1,
+                    what: format!("the real server recovery loop (acquire_authority_lock_with_recovery), alone, from the all-dead leftover lock={lock:?} meta={meta:?} did not become the authority after {:.1} s: {e}", t0.elapsed().as_secs_f64()),
+                    class: class.into(),
+                    replay: json!({"real_loop": "server", "lock": format!("{lock:?}"), "meta": format!("{meta:?}"), "dead_pids": [DEAD, DEAD2], "how": "write the leftover files, call ripd::verif::acquire_authority_lock_with_recovery(data_dir, workspace_root)"}),
+                });
+            }
+        }
+    }
+    hk::set_thread_pid(None);
+}
+
+fn wait_child(child: &mut std::process::Child, secs: u64) -> Option<std::process::ExitStatus> {
+    let end = Instant::now() + Duration::from_secs(secs);
+    loop {
+        if let Ok(Some(st)) = child.try_wait() {
+            return Some(st);
+        }
+        if Instant::now() > end {
+            return None;
+        }
+        std::thread::sleep(Duration::from_millis(20));
+    }
+}
+
+/// T2 for the client-side driver: the real `rip threads ensure` (ensure_local_authority_with_paths + the ripd it spawns)
+/// from a half-written lock.json.  The verdict does not depend on rip's own 8 s budget (machine load): whatever the
+/// command returns, the ORIGINAL empty lock.json must be gone — cleaned by the loop — when it ends.
+fn real_client_loop(res: &mut RunResult) {
+    let rip = rip_bin();
+    if !rip.exists() {
+        res.notes.push(format!("rip binary not found at {} — real client loop / shutdown path not exercised", rip.display()));
+        return;
+    }
+    let (lock, meta) = (LockF::Half(0), MetaF::Absent);
+    let (_sc, data, ws) = fresh_store(&lock, &meta);
+    let mut child = match std::process::Command::new(&rip).args(["threads", "ensure"]).env("RIP_DATA_DIR", &data).env("RIP_WORKSPACE_ROOT", &ws)
+        .stdin(std::process::Stdio::null()).stdout(std::process::Stdio::null()).stderr(std::process::Stdio::null()).spawn() {
+        Ok(c) => c,
+        Err(e) => {
+            res.notes.push(format!("could not start {}: {e}", rip.display()));
+            return;
+        }
+    };
+    let st = wait_child(&mut child, 240);
+    if st.is_none() {
+        let _ = child.kill();
+        let _ = child.wait();
+    }
+    res.evaluations += 1;
+    res.oracle_checks += 1;
+    res.bump("kind=real_client_loop");
+    let lp = ripd::authority_lock_path(&data);
+    let still_half = std::fs::metadata(&lp).map(|m| m.len() == 0).unwrap_or(false);
+    if still_half {
+        let class = "real_client_loop_never_cleans_half_written_lock";
+        res.bump(&format!("finding={class}"));
+        res.oracle_violations.push(OracleViolation {
+            case_id: -1,
+            what: format!("`rip threads ensure` (the real client recovery loop) from an empty lock.json and no meta.json ended ({st:?}) and the empty lock.json is still there: the corrupt-lock cleanup never ran"),
+            class: class.into(),
+            replay: json!({"real_loop": "client", "lock": "Half (empty lock.json)", "meta": "Absent", "how": "create authority/lock.json empty, run `rip threads ensure` with RIP_DATA_DIR / RIP_WORKSPACE_ROOT"}),
+        });
+    } else if !st.map(|s| s.success()).unwrap_or(false) {
+        res.notes.push(format!("real client loop: `rip threads ensure` ended {st:?} but the half-written lock was cleaned (slow machine?)"));
+    }
+    // stop the authority the client spawned
+    if let Some((pid, _)) = meta_pid_endpoint(&data) {
+        unsafe { kill(pid as i32, SIGTERM) };
+        let end = Instant::now() + Duration::from_secs(20);
+        while lp.exists() && Instant::now() < end {
+            std::thread::sleep(Duration::from_millis(50));
+        }
+        if lp.exists() {
+            unsafe { kill(pid as i32, SIGKILL) };
+        }
+    }
+    reap_orphans(500);
+}
+
+/// "release on drop" ties "is the authority" to "holds the lock": a real `rip serve` with a request in flight is told to
+/// stop; as long as the process has not exited and still has that connection open (it is draining), lock.json must still
+/// carry its record.
+fn real_shutdown_path(res: &mut RunResult) {
+    use std::io::{Read, Write};
+    let rip = rip_bin();
+    if !rip.exists() {
+        return;
+    }
+    let (_sc, data, ws) = fresh_store(&LockF::Absent, &MetaF::Absent);
+    let mut child = match std::process::Command::new(&rip).arg("serve").env("RIP_DATA_DIR", &data).env("RIP_WORKSPACE_ROOT", &ws).env("RIP_SERVER_ADDR", "127.0.0.1:0")
+        .stdin(std::process::Stdio::null()).stdout(std::process::Stdio::null()).stderr(std::process::Stdio::null()).spawn() {
+        Ok(c) => c,
+        Err(e) => {
+            res.notes.push(format!("could not start rip serve: {e}"));
+            return;
+        }
+    };
+    let pid = child.id() as u64;
+    let end = Instant::now() + Duration::from_secs(240);
+    let mut ep = None;
+    while Instant::now() < end {
+        if let Some((p, e)) = meta_pid_endpoint(&data) {
+            if p == pid {
+                ep = Some(e);
+                break;
+            }
+        }
+        if let Ok(Some(_)) = child.try_wait() {
+            break;
+        }
+        std::thread::sleep(Duration::from_millis(20));
+    }
+    let finish = |child: &mut std::process::Child| {
+        if wait_child(child, 30).is_none() {
+            let _ = child.kill();
+            let _ = child.wait();
+        }
+    };
+    let Some(ep) = ep else {
+        res.notes.push("real shutdown path: rip serve did not publish meta.json within 240 s (not judged)".into());
+        let _ = child.kill();
+        finish(&mut child);
+        return;
+    };
+    let addr = ep.trim_start_matches("http://").to_string();
+    let Ok(mut conn) = std::net::TcpStream::connect(&addr) else {
+        res.notes.push(format!("real shutdown path: could not connect to {addr} (not judged)"));
+        unsafe { kill(pid as i32, SIGTERM) };
+        finish(&mut child);
+        return;
+    };
+    // a request in flight: complete headers, incomplete body (the handler's Json extractor waits for the rest)
+    let _ = conn.write_all(b"POST /sessions/verif-c18/input HTTP/1.1\r\nHost: verif\r\nContent-Type: application/json\r\nContent-Length: 4096\r\n\r\n{\"input\":\"");
+    let _ = conn.flush();
+    std::thread::sleep(Duration::from_millis(300));
+    let _ = conn.set_nonblocking(true);
+    let conn_open = |conn: &mut std::net::TcpStream| -> bool {
+        let mut b = [0u8; 1];
+        match conn.peek(&mut b) {
+            Ok(_) => false, // EOF, or a response arrived: the request is no longer in flight
+            Err(e) => e.kind() == std::io::ErrorKind::WouldBlock,
+        }
+    };
+    let in_flight_before = conn_open(&mut conn);
+    res.evaluations += 1;
+    res.oracle_checks += 1;
+    res.bump("kind=real_shutdown_path");
+    unsafe { kill(pid as i32, SIGTERM) };
+    let t0 = Instant::now();
+    let mut bad_since: Option<Instant> = None;
+    let mut worst = Duration::ZERO;
+    let mut exited = false;
+    while t0.elapsed() < Duration::from_secs(60) {
+        // order matters: lock first, then the connection, then the process — on a correct server the connection closes
+        // BEFORE the guard is dropped, so "lock gone" observed first and "still draining" observed after it is a fact
+        let lock_ok = data_lock(&data) == 2 + pid;
+        let draining = conn_open(&mut conn);
+        if let Ok(Some(_)) = child.try_wait() {
+            exited = true;
+            break;
+        }
+        if !lock_ok && draining {
+            let s = *bad_since.get_or_insert_with(Instant::now);
+            worst = worst.max(s.elapsed());
+        } else {
+            bad_since = None;
+        }
+        std::thread::sleep(Duration::from_millis(10));
+    }
+    if !exited {
+        let _ = child.kill();
+    }
+    finish(&mut child);
+    let mut junk = [0u8; 64];
+    let _ = conn.read(&mut junk);
+    if !in_flight_before {
+        res.notes.push("real shutdown path: the request was not in flight when SIGTERM was sent (not judged)".into());
+    }
+    // unchanged code: the guard is dropped at the end of serve(), a few milliseconds before the runtime (and with it the
+    // connection) goes away — even a badly loaded machine does not stretch that to a second; released at the START of the
+    // shutdown the gap is the whole drain (2 s timeout with the request in flight)
+    if worst >= Duration::from_millis(1000) {
+        let class = "authority_released_its_lock_while_still_draining";
+        res.bump(&format!("finding={class}"));
+        res.oracle_violations.push(OracleViolation {
+            case_id: -1,
+            what: format!("rip serve (pid {pid}) was sent SIGTERM with a request in flight: for at least {} ms the process was still running and still had the connection open, but lock.json no longer carried its record — any other start wins the exclusive create while this authority is still serving", worst.as_millis()),
+            class: class.into(),
+            replay: json!({"real_process": "rip serve", "how": "start `rip serve` on an empty store, open a TCP connection to its endpoint and send `POST /sessions/x/input` with Content-Length 4096 and 10 body bytes, send SIGTERM, watch lock.json until the process exits"}),
+        });
+    }
+    reap_orphans(100);
+}
+
 fn main() {
     let a = parse_args();
     let mut res = RunResult::new("C18", &a);
@@ -1032,7 +1300,9 @@ fn main() {
         record(&mut res, &mut w, "real_pid", &c, o, false);
     }
     // 3. all 2-contender interleavings of the scripts over every leftover state
-    let cap = if thorough { 400 } else { 12 };
+    // the failing-input search of ./check (thorough generator, --oracle-only 1) gets a budget of a few minutes
+    let search = thorough && a.oracle_only();
+    let cap = if search { 60 } else if thorough { 400 } else { 12 };
     let sc = scripts();
     for (_, lock, meta, by) in leftovers() {
         for i in 0..sc.len() {
@@ -1047,7 +1317,7 @@ fn main() {
         }
     }
     // 4. loops against loops: server/server, server/client over every leftover, DFS capped (grace bit on)
-    let cap2 = if thorough { 300 } else { 10 };
+    let cap2 = if search { 40 } else if thorough { 300 } else { 10 };
     for (_, lock, meta, by) in leftovers() {
         for (d1, d2) in [(Drv::Server, Drv::Server), (Drv::Server, Drv::Client), (Drv::Client, Drv::Client)] {
             let c = Case { lock: lock.clone(), meta: meta.clone(), bystander: by, cont: vec![Contender { pid: 101, drv: d1.clone() }, Contender { pid: 102, drv: d2.clone() }], assume_grace: true, real_pids: false };
@@ -1060,7 +1330,7 @@ fn main() {
         }
     }
     // 5. random 2-4 contenders, crashes, adversarial bits
-    let nrand = if thorough { 20000 } else { 500 };
+    let nrand = if search { 3000 } else if thorough { 20000 } else { 500 };
     for k in 0..nrand {
         let c = random_case(&mut r);
         let mut r2 = r.fork();
@@ -1123,6 +1393,11 @@ fn main() {
             });
         }
     }
+    // 7.-9. the real driver loops and the real shutdown path (wall-clock, a few seconds)
+    unsafe { prctl(36 /* PR_SET_CHILD_SUBREAPER */, 1, 0, 0, 0) };
+    real_server_loop(&mut res);
+    real_client_loop(&mut res);
+    real_shutdown_path(&mut res);
     rip_kernel::verif::set_hook(None);
     w.flush();
     for (p, n) in pcs_hist {
